@@ -39,6 +39,12 @@ var solvers = []solverSpec{
 	{"z3/ematching", func(t int, f string) []string {
 		return []string{"z3", "-smt2", fmt.Sprintf("-T:%d", t), "smt.mbqi=false", f}
 	}},
+	{"z3-new/ematching/seed7", func(t int, f string) []string {
+		return []string{"z3-new", "-smt2", fmt.Sprintf("-T:%d", t), "smt.mbqi=false", "smt.random_seed=7", "sat.random_seed=7", "smt.arith.random_initial_value=true", f}
+	}},
+	{"z3-new/ematching/seed13", func(t int, f string) []string {
+		return []string{"z3-new", "-smt2", fmt.Sprintf("-T:%d", t), "smt.mbqi=false", "smt.random_seed=13", "sat.random_seed=13", f}
+	}},
 	{"z3-new", func(t int, f string) []string { return []string{"z3-new", "-smt2", fmt.Sprintf("-T:%d", t), f} }},
 	{"cvc5", func(t int, f string) []string {
 		return []string{"cvc5", "--lang=smt2", fmt.Sprintf("--tlimit=%d", t*1000), "--strings-exp", f}
@@ -68,7 +74,19 @@ func Script(lines []string, o *Obligation, withModel bool) string {
 	return b.String()
 }
 
+// procSlots bounds the number of solver processes running at any time.
+var procSlots = make(chan struct{}, 16)
+
 func runSolver(ctx context.Context, s solverSpec, timeout int, file string) (status string, out string, ms int64) {
+	select {
+	case procSlots <- struct{}{}:
+	case <-ctx.Done():
+		return "timeout", "", 0
+	}
+	defer func() { <-procSlots }()
+	if ctx.Err() != nil {
+		return "timeout", "", 0
+	}
 	start := time.Now()
 	args := s.args(timeout, file)
 	cctx, cancel := context.WithTimeout(ctx, time.Duration(timeout+2)*time.Second)
@@ -113,7 +131,7 @@ func Discharge(res *FuncResult, cfg SolverConfig) {
 		cfg.TimeoutS = 10
 	}
 	os.MkdirAll(cfg.WorkDir, 0o755)
-	sem := make(chan struct{}, cfg.Parallel)
+	sem := make(chan struct{}, cfg.Parallel*2)
 	var wg sync.WaitGroup
 	all := append([]*Obligation{}, res.Obls...)
 	all = append(all, res.Covers...)
@@ -138,8 +156,8 @@ func solveOne(o *Obligation, file string, cfg SolverConfig) {
 	ctx := context.Background()
 	// stage 1: z3-new, short timeout
 	t1 := cfg.TimeoutS
-	if t1 > 4 {
-		t1 = 4
+	if t1 > 8 {
+		t1 = 8
 	}
 	if o.Kind == "cover" {
 		t1 = 2
